@@ -37,6 +37,7 @@ func init() {
 		vp + "Par":        inPar,
 		vp + "Blob":       inBlob,
 		vp + "IsRuntime":  inIsRuntime,
+		vp + "IsSymbolic": func(m *Machine, fr *frame, fn *ssa.Function, a []Value) Value { return Bool{B: !a[0].(Str).isConc()} },
 		vp + "Symbolic":   func(*Machine, *frame, *ssa.Function, []Value) Value { return Bool{B: true} },
 		vp + "PoolReuse":  inPoolReuse,
 		vp + "ErrString":  inErrString,
